@@ -23,7 +23,10 @@ CallViol(e) ==
     ELSE LET c == e.calls[1] IN
          (IF c.k # e.k THEN {"C18/wrong-handler-operation/k=" \o Str(e.k)} ELSE {})
          \cup {"C18/argument-differs/k=" \o Str(e.k) \o "/" \o f : f \in {f \in ArgKeysBe(e.k) : f \notin DOMAIN c.args \/ c.args[f] # e.args[f]}}
-         \cup (IF e.k \in {8, 9} /\ c.files # <<e.lent>> THEN {"C18/file-differs/k=" \o Str(e.k)} ELSE {})
+         \cup (IF e.k \in {8, 9} /\ c.files # <<e.lent>>
+               THEN {"C18/file-differs/k=" \o Str(e.k),
+                     \* in terms of C09: what the handler was lent during the call is not the descriptor that arrived
+                     "C09/frontend-server/lent-descriptor-is-not-the-received-file-during-the-call/k=" \o Str(e.k)} ELSE {})
          \cup (IF e.k \notin {8, 9} /\ c.files # <<>> THEN {"C18/unexpected-file/k=" \o Str(e.k)} ELSE {})
 
 \* the proxy call succeeded (whatever value it carries: "succeeds iff the handler returned zero" is about success)
